@@ -223,6 +223,14 @@ def _chunk(args):
   return res
 
 
+def compiled_plans(tier, seed):
+  from vlib import lgen, schemas
+  r = schemas.run_schemas(lgen.by_tag('C14'), tier, seed, 'C14-compiled-plans')
+  r['rule'] = ('plans produced by compiling programs with @Ground and deep recursion, executed through '
+               'concertina_lib.ExecuteLogicaProgram on SQLite, each predicate alone and all together: rows equal the spec')
+  return r
+
+
 def run(tier, seed):
   scratch = tempfile.mkdtemp(prefix='verif_c14_')
   try:
@@ -248,7 +256,7 @@ def run(tier, seed):
                                                                           'log': v['log'], 'clause': 'whole-run post'},
                                            'prop_replay': {'kind': 'plan', 'plan': v['plan']}}})
       break
-  return [out]
+  return [out, compiled_plans(tier, seed)]
 
 
 def replay(spec):
